@@ -305,6 +305,20 @@ func genC08(r *gen.Rand) (Input, string) {
 		addSiblings(r, &in, p.moments)
 		kind = "siblings"
 	}
+	// time passes between the start of a call and an await point in a later operation: short declared
+	// timeouts, pauses of more than twice the timeout; a call is collected with its own result however
+	// long it has been waiting to be collected (nothing but Cancel ends the hand-over)
+	if len(in.Ops) >= 2 && r.Chance(1, 25) {
+		for i := range in.Hooks {
+			if in.Hooks[i].Kind == "call" {
+				in.Hooks[i].Timeout = "20ms"
+			}
+		}
+		for i := 1; i < len(in.Ops); i++ {
+			in.Ops[i].PauseMs = 45
+		}
+		kind = "late-collection"
+	}
 	if r.Chance(3, 4) {
 		in.Ops = append(in.Ops, Op{Ev: "LEAVE_CANCEL"})
 	}
@@ -515,6 +529,12 @@ func genSim(r *gen.Rand, runningPct int) (Input, string) {
 		add(Hook{Kind: "call", Trig: t, Await: t, Crit: false})
 		add(Hook{Kind: "task", Trig: t, Await: t, Crit: r.Chance(1, 3)})
 	}
+	// hooks awaited in place: two thirds are written the way users write them, without an await
+	for i := range in.Hooks {
+		if h := &in.Hooks[i]; h.Kind == "call" && h.Await == h.Trig && r.Chance(2, 3) {
+			h.Await = ""
+		}
+	}
 	calls := callIds(in.Hooks, func(Hook) bool { return true })
 	for i := range in.Ops {
 		in.Ops[i].Slow = subset(r, calls, 1, 5)
@@ -546,6 +566,37 @@ func genSim(r *gen.Rand, runningPct int) (Input, string) {
 		kind = "sim-failed-stop-teardown"
 	}
 	return in, kind
+}
+
+// sim level, C09: a critical (or not) hook task at a moment of START_ACTIVITY of a live environment,
+// failing or not, with the task-class cache maintained (another workflow loaded while every entry
+// is older than the TTL) between deployment and the trigger
+func genSimHookTask(r *gen.Rand) (Input, string) {
+	m := r.Pick([]string{"before_START_ACTIVITY", "before_START_ACTIVITY-1", "leave_CONFIGURED", "enter_RUNNING", "after_START_ACTIVITY+1"})
+	crit := r.Chance(2, 3)
+	// (no negative exit codes here: the simulated executor of simcore reads them as "never terminates")
+	out := r.Pick([]string{"ok", "exit", "exit", "x:137:1:FAILED", "x:2:1:FINISHED"})
+	in := Input{Level: "sim", Init: "CONFIGURED", Hooks: []Hook{
+		{Id: 1, Kind: "call", Trig: m, Await: m, Crit: false},
+		{Id: 2, Kind: "task", Trig: m, Await: m, Crit: crit},
+		{Id: 3, Kind: "call", Trig: "after_START_ACTIVITY+9", Crit: false},
+		{Id: 4, Kind: "call", Trig: "DESTROY", Crit: false}},
+		Ops: []Op{{Ev: "START_ACTIVITY", Real: true, Maint: r.Chance(3, 4), TaskOut: map[string]string{"2": out}}, {Ev: "TEARDOWN"}}}
+	return in, "sim-hooktask-maint"
+}
+
+func simCorpusC09() ([]Input, []string) {
+	var ins []Input
+	var kinds []string
+	for _, m := range []string{"before_START_ACTIVITY-1", "leave_CONFIGURED", "enter_RUNNING", "after_START_ACTIVITY"} {
+		ins = append(ins, Input{Level: "sim", Init: "CONFIGURED", Hooks: []Hook{
+			{Id: 1, Kind: "call", Trig: m, Await: m, Crit: false},
+			{Id: 2, Kind: "task", Trig: m, Await: m, Crit: true},
+			{Id: 3, Kind: "call", Trig: "DESTROY", Crit: false}},
+			Ops: []Op{{Ev: "START_ACTIVITY", Real: true, Maint: true, TaskOut: map[string]string{"2": "exit"}}, {Ev: "TEARDOWN"}}})
+		kinds = append(kinds, "sim-hooktask-maint")
+	}
+	return ins, kinds
 }
 
 func simCorpus() ([]Input, []string) {
@@ -584,6 +635,19 @@ func simCorpus() ([]Input, []string) {
 			{Id: 2, Kind: "call", Trig: "DESTROY", Await: "DESTROY"}},
 			Ops: []Op{{Ev: "START_ACTIVITY", Real: true}, {Ev: "STOP_ACTIVITY", Real: true, Fail: []int{1}}, {Ev: "TEARDOWN"}}})
 	}
+	// hooks written in YAML without an await, at negative, zero and positive weights of every moment of
+	// START_ACTIVITY, a critical one failing: the default await is the trigger, weight included (C10-6)
+	add("sim-yaml-default-await", Input{Level: "sim", Init: "CONFIGURED", Hooks: []Hook{
+		{Id: 1, Kind: "call", Trig: "before_START_ACTIVITY-10", Crit: true},
+		{Id: 2, Kind: "call", Trig: "before_START_ACTIVITY-1", Crit: false},
+		{Id: 3, Kind: "call", Trig: "before_START_ACTIVITY", Crit: false},
+		{Id: 4, Kind: "call", Trig: "before_START_ACTIVITY+5", Crit: false},
+		{Id: 5, Kind: "call", Trig: "leave_CONFIGURED-2", Crit: false},
+		{Id: 6, Kind: "call", Trig: "enter_RUNNING-3", Crit: false},
+		{Id: 7, Kind: "call", Trig: "after_START_ACTIVITY-4", Crit: false},
+		{Id: 8, Kind: "call", Trig: "leave_RUNNING-1", Crit: false},
+		{Id: 9, Kind: "call", Trig: "DESTROY-1", Crit: false}},
+		Ops: []Op{{Ev: "START_ACTIVITY", Real: true, Fail: []int{1}, Slow: []int{2}}, {Ev: "START_ACTIVITY", Real: true, Slow: []int{1, 2, 5, 6, 7}}, {Ev: "TEARDOWN"}}})
 	add("sim-failed-start-teardown", Input{Level: "sim", Init: "CONFIGURED", Hooks: []Hook{
 		{Id: 1, Kind: "call", Trig: "before_START_ACTIVITY", Await: "before_START_ACTIVITY", Crit: true},
 		{Id: 2, Kind: "call", Trig: "DESTROY", Await: "DESTROY"}},
@@ -675,6 +739,16 @@ func corpus(prop string) ([]Input, []string) {
 				{Id: 7, Kind: "task", Trig: m + "+6", Crit: false, Timeout: "10s"}},
 				Ops: []Op{{Ev: "CONFIGURE", Slow: []int{1, 3}, Slower: []int{2}}, {Ev: "RESET"},
 					{Ev: "CONFIGURE", Slower: []int{1, 3}, Slow: []int{2}}, {Ev: "LEAVE_CANCEL"}}})
+		}
+		// a failing critical call awaited in a LATER transition, collected long after it returned (more
+		// than twice its declared timeout): it is collected with its own result (seeded regression C08-6)
+		for _, aw := range []string{"before_RESET", "leave_CONFIGURED+1", "enter_DEPLOYED-1", "after_RESET"} {
+			add("late-collection", Input{Level: "bare", Init: "DEPLOYED", Hooks: []Hook{
+				{Id: 1, Kind: "call", Trig: "enter_CONFIGURED", Await: aw, Crit: true, Timeout: "20ms"},
+				{Id: 2, Kind: "call", Trig: "after_CONFIGURE+1", Await: aw, Crit: false, Timeout: "20ms"},
+				{Id: 3, Kind: "call", Trig: "before_CONFIGURE", Await: "after_NOTHING", Crit: true, Timeout: "20ms"}},
+				Ops: []Op{{Ev: "CONFIGURE", Fail: []int{1, 2, 3}}, {Ev: "RESET", PauseMs: 60}, {Ev: "CONFIGURE", Fail: []int{2}},
+					{Ev: "RESET", PauseMs: 60}, {Ev: "LEAVE_CANCEL"}}})
 		}
 		add("hooks_test-order", Input{Level: "bare", Init: "DEPLOYED", Hooks: []Hook{
 			{Id: 3, Kind: "call", Trig: "before_CONFIGURE+50", Await: "before_CONFIGURE+50", Crit: true},
@@ -781,6 +855,10 @@ func generate(prop string, o gen.Opts) ([]Input, []string) {
 		si, sk := simCorpus()
 		ins, kinds = append(ins, si...), append(kinds, sk...)
 	}
+	if prop == "C09" {
+		si, sk := simCorpusC09()
+		ins, kinds = append(ins, si...), append(kinds, sk...)
+	}
 	r := gen.NewRand(o.Seed)
 	rMain, rParse := r.Fork(), r.Fork()
 	rSim := r.Fork()
@@ -797,7 +875,11 @@ func generate(prop string, o gen.Opts) ([]Input, []string) {
 				in, k = genC08(rMain)
 			}
 		case "C09":
-			in, k = genC09(rMain)
+			if i%25 == 7 {
+				in, k = genSimHookTask(rSim)
+			} else {
+				in, k = genC09(rMain)
+			}
 		default:
 			if i%6 == 5 {
 				in, k = genSim(rSim, 85)
